@@ -141,7 +141,11 @@ class AttributeValueFactory(object):
         elif enum is enums.Tags.CRYPTOGRAPHIC_DOMAIN_PARAMETERS:
             raise NotImplementedError()
         elif enum is enums.Tags.CERTIFICATE_TYPE:
-            raise NotImplementedError()
+            return primitives.Enumeration(
+                enums.CertificateType,
+                value=value,
+                tag=enums.Tags.CERTIFICATE_TYPE
+            )
         elif enum is enums.Tags.CERTIFICATE_LENGTH:
             return primitives.Integer(value, enums.Tags.CERTIFICATE_LENGTH)
         elif enum is enums.Tags.X_509_CERTIFICATE_IDENTIFIER:
@@ -206,8 +210,16 @@ class AttributeValueFactory(object):
             return primitives.DateTime(value, enums.Tags.LAST_CHANGE_DATE)
         elif enum is enums.Tags.SENSITIVE:
             return primitives.Boolean(value, enums.Tags.SENSITIVE)
+        elif enum is enums.Tags.ALWAYS_SENSITIVE:
+            return primitives.Boolean(value, enums.Tags.ALWAYS_SENSITIVE)
+        elif enum is enums.Tags.EXTRACTABLE:
+            return primitives.Boolean(value, enums.Tags.EXTRACTABLE)
+        elif enum is enums.Tags.NEVER_EXTRACTABLE:
+            return primitives.Boolean(value, enums.Tags.NEVER_EXTRACTABLE)
         elif enum is enums.Tags.CUSTOM_ATTRIBUTE:
             return attributes.CustomAttribute(value)
+        elif enum is enums.Tags.ORIGINAL_CREATION_DATE:
+            return primitives.DateTime(value, enums.Tags.ORIGINAL_CREATION_DATE)
         else:
             raise ValueError("Unrecognized attribute type: {}".format(enum))
 
